@@ -186,7 +186,8 @@ static const char* FORMAT_NAMES[] = {"plain", "names", "json", "numeric", "json-
 
 class SeqCheck {
  public:
-  SeqCheck(const Seq& s, bool deep) : seq(s), n(s.size()), deep(deep), nv(s.size() >= 4 ? 2 : 3) {}
+  SeqCheck(const Seq& s, bool deep, bool light = false) : seq(s), n(s.size()), deep(deep), nv(s.size() >= 4 ? 2 : 3), light(light) {}
+  bool light;  // only the cheap structural oracles (lengths of the uniform encodings, barrier rule)
   int nv;  // values per field used for the combinations (2 for the longest sequences)
   ~SeqCheck() { delete whole; for (auto a : alone) delete a; }
   vector<Finding> out;
@@ -217,6 +218,7 @@ class SeqCheck {
     whole = createFields(seq);
     if (!whole) { R.count("definitions_refused"); return false; }
     R.count("definitions");
+    if (light) { checkLight(); checkBarriers(); return true; }
     for (size_t i = 0; i < n; i++) {
       Seq one = {seq[i]};
       vector<string> nm = {"f" + std::to_string(i)};
@@ -228,8 +230,83 @@ class SeqCheck {
     if (e0.res != RESULT_OK) { fail("encode-fails", string("valid values rejected: ") + getResultCode(e0.res)); return true; }
     discover(e0, base);
     checkLengths(e0);
+    checkBarriers();
     checkEncodings();
     return true;
+  }
+
+  // light mode: written length == usedLength == getLength, and the written bytes are readable
+  void checkLight() {
+    for (int u = 0; u < nv; u++) {
+      vector<int> c(n, 0);
+      for (size_t i = 0; i < n; i++) if (!ft(i).ign) c[i] = u;
+      Enc e = encode(whole, seq, valuesFor(c));
+      R.evaluations++; R.tracesValidated++;
+      if (e.res != RESULT_OK) { fail("encode-fails", string("valid values rejected: ") + getResultCode(e.res)); return; }
+      R.distinct(vp::fnv(seqStr(seq) + "|" + hx(e.m) + "|" + hx(e.s)));
+      for (char part : {'m', 's'}) {
+        const Bytes& d = part == 'm' ? e.m : e.s;
+        size_t used = part == 'm' ? e.usedM : e.usedS;
+        PartType pt = part == 'm' ? pt_masterData : pt_slaveData;
+        if (d.size() != used) fail("length-written", string("part ") + part + ": usedLength " + std::to_string(used) + " but " + std::to_string(d.size()) + " byte(s) written", part);
+        size_t lg = whole->getLength(pt, d.size());
+        if (lg != d.size()) fail("length-computed", string("part ") + part + ": getLength(" + std::to_string(d.size()) + ")=" + std::to_string(lg) + " but " + std::to_string(d.size()) + " byte(s) written", part);
+      }
+      Dec w = decodeWhole(whole, e.m, e.s, OF_NONE);
+      if (w.res < RESULT_OK) fail("length-consumed", string("read of the written bytes fails: ") + getResultCode(w.res));
+    }
+  }
+
+  // (5) a full-byte field is a layout barrier: nothing can share a byte across it, so the fields behind it
+  // must be laid out exactly as if they stood alone - whatever precedes the barrier.  For every full-byte
+  // field F of a part: bytes(prefix..F ; suffix) == bytes(prefix..F) ++ bytes(suffix), same for getLength.
+  void checkBarriers() {
+    for (char part : {'m', 's'}) {
+      vector<size_t> idx;
+      for (size_t i = 0; i < n; i++) if (seq[i].part == part) idx.push_back(i);
+      PartType pt = part == 'm' ? pt_masterData : pt_slaveData;
+      for (size_t k = 0; k + 1 < idx.size(); k++) {
+        const FT& f = ft(idx[k]);
+        if (f.bit || f.var) continue;
+        Seq pre, suf;
+        for (size_t j = 0; j <= k; j++) pre.push_back(seq[idx[j]]);
+        for (size_t j = k + 1; j < idx.size(); j++) suf.push_back(seq[idx[j]]);
+        const DataField* P = createFields(pre);
+        const DataField* S = createFields(suf);
+        if (!P || !S) { delete P; delete S; continue; }
+        bool hasVar = false;
+        for (auto& x : suf) if (FTof(x.t).var) hasVar = true;
+        if (!hasVar) {
+          size_t lw = whole->getLength(pt, MAX_POS), lp = P->getLength(pt, MAX_POS), ls = S->getLength(pt, MAX_POS);
+          R.evaluations++;
+          if (lw != lp + ls) fail("layout-depends-on-fields-before-full-byte-field", string("part ") + part + ": getLength " + std::to_string(lw) + " but " + std::to_string(lp) + " up to " + f.type +
+                                  " (field " + std::to_string(idx[k]) + ") + " + std::to_string(ls) + " for the fields behind it alone", part);
+        }
+        for (int u = 0; u < nv; u++) {
+          vector<int> c(n, 0);
+          for (size_t i = 0; i < n; i++) if (!ft(i).ign) c[i] = u;
+          vector<string> all = valuesFor(c), vp_, vs_;
+          for (size_t j = 0; j <= k; j++) vp_.push_back(all[idx[j]]);
+          for (size_t j = k + 1; j < idx.size(); j++) vs_.push_back(all[idx[j]]);
+          Enc ew = encode(whole, seq, all), ep = encode(P, pre, vp_), es = encode(S, suf, vs_);
+          R.evaluations++; R.tracesValidated++;
+          if (ew.res != RESULT_OK || ep.res != RESULT_OK || es.res != RESULT_OK) continue;  // reported elsewhere
+          Bytes w = part == 'm' ? ew.m : ew.s, a = part == 'm' ? ep.m : ep.s, b = part == 'm' ? es.m : es.s;
+          Bytes ab = a; ab.insert(ab.end(), b.begin(), b.end());
+          if (w != ab) {
+            fail("layout-depends-on-fields-before-full-byte-field", string("part ") + part + ": encoded " + hx(w) + " but " + hx(a) + " up to " + f.type + " (field " + std::to_string(idx[k]) +
+                 ") followed by " + hx(b) + " for the fields behind it alone", part);
+            break;
+          }
+          // and the concatenation decodes like the whole
+          Bytes om = part == 'm' ? ew.s : ew.m;
+          Dec dw = part == 'm' ? decodeWhole(whole, ab, ew.s, OF_NONE) : decodeWhole(whole, ew.m, ab, OF_NONE);
+          Dec d0 = decodeWhole(whole, ew.m, ew.s, OF_NONE);
+          if (dw.res != d0.res || dw.text != d0.text) { fail("layout-depends-on-fields-before-full-byte-field", string("part ") + part + ": decode differs", part); break; }
+        }
+        delete P; delete S;
+      }
+    }
   }
 
   // owned bits: encode with one field varied over its domain, all others at their first value
@@ -492,17 +569,17 @@ class SeqCheck {
 };
 
 // runs the checks under both readings of the sub-byte time type; findings only if both are inconsistent
-static vector<Finding> checkSeq(const Seq& s, bool deep, bool* overlap, string* reading) {
+static vector<Finding> checkSeq(const Seq& s, bool deep, bool* overlap, string* reading, bool light = false) {
   bool hasSub = false;
   for (auto& f : s) if (f.t == g_subByte) hasSub = true;
   g_subByteAsBits = false;
   vector<Finding> a;
-  { SeqCheck sc(s, deep); sc.run(); a = sc.out; if (overlap) *overlap = sc.overlapDefs; }
+  { SeqCheck sc(s, deep, light); sc.run(); a = sc.out; if (overlap) *overlap = sc.overlapDefs; }
   if (reading) *reading = "";
   if (a.empty() || !hasSub) return a;
   g_subByteAsBits = true;
   vector<Finding> b;
-  { SeqCheck sc(s, deep); sc.run(); b = sc.out; }
+  { SeqCheck sc(s, deep, light); sc.run(); b = sc.out; }
   g_subByteAsBits = false;
   if (b.empty()) { R.count("subbyte_type_consistent_only_as_bit_field"); return b; }
   // inconsistent under both readings: report the bit-field reading (the one the type's bit count suggests)
@@ -613,6 +690,50 @@ int main(int argc, char** argv) {
     }
   };
   rec();
+  // Barrier family (both tiers): one bit field ; 1..2 full-byte fields ; 2 (thorough 3) bit fields, all in one
+  // part (master and slave).  Longer than the general enumeration, checked with the cheap structural oracles:
+  // state carried by the offset bookkeeping across full-byte fields shows up here.
+  {
+    vector<int> bitT, fullT;
+    for (size_t t = 0; t < g_alpha.size(); t++) {
+      if (g_alpha[t].var) continue;
+      if (g_alpha[t].bit || (int)t == g_subByte) bitT.push_back((int)t); else fullT.push_back((int)t);
+    }
+    int sufLen = A.thorough() ? 3 : 2;
+    auto checkFamily = [&](const Seq& q) {
+      if ((int)(counter++ % (uint64_t)A.nparts) != A.part) return;
+      if ((counter & 0xff) == 0 && R.expired()) { stop = true; return; }
+      bool overlap = false; string reading;
+      vector<Finding> fs = checkSeq(q, false, &overlap, &reading, true);
+      R.count("barrier_family_sequences");
+      std::set<string> seen;
+      for (auto& f : fs) {
+        if (!seen.insert(f.rule + "/" + f.ctx).second) continue;
+        R.violation("C10/" + f.rule + "/" + f.ctx, seqStr(q) + ": " + f.detail + (reading.empty() ? "" : " [" + reading + "]"), "k=seq;light=1;f=" + seqStr(q) + ";rule=" + f.rule);
+      }
+    };
+    for (char part : {'m', 's'}) for (int p0 : bitT) for (int nf = 1; nf <= 2; nf++) {
+      vector<vector<int>> fulls;
+      if (nf == 1) for (int a : fullT) fulls.push_back({a});
+      else for (int a : fullT) for (int b : fullT) fulls.push_back({a, b});
+      for (auto& fv : fulls) {
+        vector<int> sv(sufLen, 0);
+        std::function<void(int)> sufRec = [&](int d) {
+          if (stop) return;
+          if (d == sufLen) {
+            Seq q = {FieldDef{p0, part}};
+            for (int a : fv) q.push_back(FieldDef{a, part});
+            for (int b : sv) q.push_back(FieldDef{bitT[b], part});
+            checkFamily(q);
+            return;
+          }
+          for (size_t b = 0; b < bitT.size(); b++) { sv[d] = (int)b; sufRec(d + 1); }
+        };
+        sufRec(0);
+      }
+    }
+    if (A.part == 0) R.sample("barrier family e.g. BI0:3.m,UIN.m,BI0:3.m,BI3:2.m: bytes behind the full-byte field must equal the encoding of the trailing fields alone");
+  }
   R.write(A.out);
   return 0;
 }
